@@ -191,16 +191,10 @@ def r3_atomic(ctx) -> None:
   C07.r3_ram_atomic_metadata(_Relabel(ctx, 'R3'), svc)
   # SQL: reuse the transaction analysis on update_metadata only
   sql = svc.sql
-  wrapper = None
-  for m in sql.methods.values():
-    if m.name.startswith('_') and not m.name.startswith('__') and any(
-        (dotted(c.func) or '').endswith('_connection.execute') for c in flow.calls_in(m.node)):
-      wrapper = m
-  if wrapper is None:
-    raise AnalysisError('SQL write wrapper not found')
-  rolls = C05._wrapper_rolls_back(ctx, wrapper)
+  wrapper = svc.sql_wrapper().fi
+  rolls = C05._wrapper_rolls_back(ctx, wrapper) if wrapper is not None else False
   impl = sql.methods['update_metadata']
-  ta = C05.TxnAnalysis(ctx, svc, impl, rolls, wrapper.name).run()
+  ta = C05.TxnAnalysis(ctx, svc, impl, rolls, svc.sql_wrapper().call_name).run()
   dirty_exit = None
   for p, lab in ta.g.raise_exit.preds:
     if p.id not in ta.state:
